@@ -58,10 +58,14 @@ func TestRaceC13(t *testing.T) {
 		for rep := 0; rep < 4; rep++ {
 			if msg := c13.RunReal(c); msg != "" {
 				if out := os.Getenv("VERIF_RACE_OUT"); out != "" {
-					b, _ := json.Marshal(map[string]any{"case": c, "class": "op-panic"})
+					b, _ := json.Marshal(map[string]any{"case": c, "class": "history"})
 					os.WriteFile(out+".case", b, 0o644)
 				}
-				fmt.Printf("REAL-LEG VIOLATION class=op-panic\nan environment operation panicked on real goroutines: %s\n", msg)
+				class := "history"
+				if i := strings.Index(msg, ": "); i > 0 && !strings.ContainsAny(msg[:i], " \n") {
+					class = msg[:i]
+				}
+				fmt.Printf("REAL-LEG VIOLATION class=%s\nthe same history oracle as the simulation (stamps from one atomic counter), on real goroutines: %s\n", class, msg)
 				t.FailNow()
 			}
 		}
